@@ -103,29 +103,33 @@ enum Raw {
     Other(String),
 }
 
-/// The real MIR of `main` (post-DCE) as raw blocks; `drop`s and `x: () = ()` are left out.
-fn real_raw(src: &str) -> Result<(usize, Vec<Vec<Raw>>), String> {
+/// The real MIR of every function (post-DCE) as raw blocks, by name; `drop`s and `x: () = ()` are left out.
+fn real_raw(src: &str) -> Result<Vec<(String, usize, Vec<Vec<Raw>>)>, String> {
     use roto::verif_hooks::c08::Ins;
     let rt: &'static roto::Runtime<roto::NoCtx> = Box::leak(Box::new(host::runtime()));
     let fns = roto::verif_hooks::c08::dump(FileTree::test_file("c08.roto", src, 0), rt).map_err(|e| format!("{e}"))?;
-    let f = fns.iter().find(|f| f.name.ends_with("main")).ok_or("no main in the MIR dump")?;
-    let blocks = f
-        .blocks
+    Ok(fns
         .iter()
-        .map(|b| {
-            b.iter()
-                .filter_map(|i| match i {
-                    Ins::Assign { unit_const: true, .. } | Ins::Drop { .. } => None,
-                    Ins::Assign { to, value, .. } => Some(Raw::Assign(format!("{to} = {}", value.trim_end()))),
-                    Ins::SetDiscriminant { to, variant } => Some(Raw::Other(format!("setdisc {to} {variant}"))),
-                    Ins::Return { var } => Some(Raw::Ret(var.clone())),
-                    Ins::Jump { to } => Some(Raw::Jump(*to)),
-                    Ins::Switch { examinee, branches, default } => Some(Raw::Switch(examinee.clone(), branches.clone(), *default)),
+        .map(|f| {
+            let blocks = f
+                .blocks
+                .iter()
+                .map(|b| {
+                    b.iter()
+                        .filter_map(|i| match i {
+                            Ins::Assign { unit_const: true, .. } | Ins::Drop { .. } => None,
+                            Ins::Assign { to, value, .. } => Some(Raw::Assign(format!("{to} = {}", value.trim_end()))),
+                            Ins::SetDiscriminant { to, variant } => Some(Raw::Other(format!("setdisc {to} {variant}"))),
+                            Ins::Return { var } => Some(Raw::Ret(var.clone())),
+                            Ins::Jump { to } => Some(Raw::Jump(*to)),
+                            Ins::Switch { examinee, branches, default } => Some(Raw::Switch(examinee.clone(), branches.clone(), *default)),
+                        })
+                        .collect()
                 })
-                .collect()
+                .collect();
+            (f.name.rsplit('.').next().unwrap_or("").to_string(), f.tmp_idx, blocks)
         })
-        .collect();
-    Ok((f.tmp_idx, blocks))
+        .collect())
 }
 
 /// The model's answer to `c08 mir`: `ok <tmp_idx> | block | block …`.
@@ -278,17 +282,11 @@ fn rename_tmps(text: &str) -> String {
 /// Ok(true): compared and equal; Ok(false): outside the model's fragment.
 fn compare_mir(rep: &mut Report, drv: &mut Driver, src: &str, sx: &str, ident: &Value) -> bool {
     let ans = drv.ask(&format!("c08 mir {}", hex(sx)));
-    if ans == "outside" {
+    let per_fn: Vec<&str> = ans.split(" || ").collect();
+    if per_fn.iter().all(|a| a.trim() == "outside") {
         rep.hist("mir-model-vs-real", "outside the modelled fragment");
         return false;
     }
-    let model = match model_raw(&ans) {
-        Ok(m) => m,
-        Err(e) => {
-            rep.mismatch("answer of `c08 mir` not understood", json!({"case": ident, "src": src, "error": e, "answer": ans}));
-            return false;
-        }
-    };
     let real = match catch_unwind(AssertUnwindSafe(|| real_raw(src))) {
         Ok(Ok(r)) => r,
         Ok(Err(e)) => {
@@ -297,28 +295,49 @@ fn compare_mir(rep: &mut Report, drv: &mut Driver, src: &str, sx: &str, ident: &
         }
         Err(_) => return false, // the compiler panicked: reported by the behavioural part
     };
-    let (mut mc, mut rc) = (canon_cfg(&model.1), canon_cfg(&real.1));
     let has_match = src.contains("match ");
-    if has_match && (mc != rc || model.0 != real.0) {
-        // the guard chains of a `match` are lowered in hash-set order: temporaries are numbered
-        // differently from run to run; compare up to a renaming of temporaries by first occurrence
-        (mc, rc) = (rename_tmps(&mc), rename_tmps(&rc));
-        if mc == rc {
-            rep.hist("mir-model-vs-real", "same up to the numbering of temporaries (match)");
-            return true;
+    let last = per_fn.len() - 1;
+    let mut compared = false;
+    for (i, a) in per_fn.iter().enumerate() {
+        let name = if i == last { "main".to_string() } else { format!("f{i}") };
+        if a.trim() == "outside" {
+            rep.hist("mir-model-vs-real", "function outside the modelled fragment");
+            continue;
+        }
+        let model = match model_raw(a.trim()) {
+            Ok(m) => m,
+            Err(e) => {
+                rep.mismatch("answer of `c08 mir` not understood", json!({"case": ident, "src": src, "error": e, "answer": a}));
+                continue;
+            }
+        };
+        let Some((_, rtmp, rblocks)) = real.iter().find(|(n, _, _)| *n == name) else {
+            rep.mismatch("the MIR dump has no item for a function of the program", json!({"case": ident, "src": src, "function": name}));
+            continue;
+        };
+        compared = true;
+        let (mut mc, mut rc) = (canon_cfg(&model.1), canon_cfg(rblocks));
+        if has_match && (mc != rc || model.0 != *rtmp) {
+            // the guard chains of a `match` are lowered in hash-set order: temporaries are numbered
+            // differently from run to run; compare up to a renaming of temporaries by first occurrence
+            (mc, rc) = (rename_tmps(&mc), rename_tmps(&rc));
+            if mc == rc {
+                rep.hist("mir-model-vs-real", "same up to the numbering of temporaries (match)");
+                continue;
+            }
+        }
+        if mc != rc || (model.0 != *rtmp && !has_match) {
+            rep.mismatch(
+                "the structured lowering model (Lean LowerS.lowerFn) and the real MIR of a function differ (instructions, order, temporaries or control flow; drops and unit constants ignored)",
+                json!({"case": ident, "src": src, "function": name, "model_tmp_idx": model.0, "real_tmp_idx": rtmp, "model": mc, "real": rc}),
+            );
+            rep.hist("mir-model-vs-real", "DIFFERENT");
+        } else {
+            rep.hist("mir-model-vs-real", "same");
+            rep.hist("mir-blocks", bucket(mc.matches("\nL").count() as u64 + 1));
         }
     }
-    if mc != rc || (model.0 != real.0 && !has_match) {
-        rep.mismatch(
-            "the structured lowering model (Lean LowerS.lowerFn) and the real MIR of main differ (instructions, order, temporaries or control flow; drops and unit constants ignored)",
-            json!({"case": ident, "src": src, "model_tmp_idx": model.0, "real_tmp_idx": real.0, "model": mc, "real": rc}),
-        );
-        rep.hist("mir-model-vs-real", "DIFFERENT");
-    } else {
-        rep.hist("mir-model-vs-real", "same");
-        rep.hist("mir-blocks", bucket(mc.matches("\nL").count() as u64 + 1));
-    }
-    true
+    compared
 }
 
 fn tuple(a: &Args) -> String {
